@@ -92,6 +92,8 @@ impl<'input, E> Iterator for Matcher<'input, '_, E> {
 
     fn next(&mut self) -> Option<Self::Item> {
         loop {
+            #[cfg(feature = "verif")]
+            crate::verif::tick();
             let text = self.text;
             let start_offset = self.consumed;
             if text.is_empty() {
